@@ -49,7 +49,8 @@ theorem sat_compileProg (file : List Stmt) (hok : okSs file = true) (s : CState)
 theorem inv_initState (builtins : List (String × Nat)) (disabled : List String)
     (hb : ∀ p ∈ builtins, p.2 < NB) : Inv (initState builtins disabled) := by
   refine ⟨by simp [initState], ?_, Walk.refl 0, fun l hl => by simp [initState] at hl,
-    fun c hc => by simp [initState] at hc, fun p op hbd _ => absurd hbd.2 (by simp [initState]), hb⟩
+    fun c hc => by simp [initState] at hc, fun p op hbd _ => absurd hbd.2 (by simp [initState]), hb,
+    fun p op hbd _ _ => absurd hbd.2 (by simp [initState])⟩
   refine ⟨fun p hp => by simp at hp, Nat.le_refl _, fun _ y hy => by simp at hy, fun _ => ⟨rfl, rfl⟩, trivial⟩
 
 end UgoVerif.Compile
